@@ -353,6 +353,9 @@ def advance (nfa : Nfa) (lim : Limits) (r : Run) (e : Ev) : Adv :=
     else if st.ty = .kleene && st.selfLoop && matchesState st e r.captured then
       -- cap check before the push
       if (match r.kc with | some k => decide (k.nextVar ≥ lim.maxEvents) | none => false) then .cont r
+      -- trailing closure: the postponed (self-referencing) filter is tested against the previously kept event
+      -- (repair `fix: trailing all step ignored its self-referencing filter`); a failing event is skipped
+      else if st.epsAccept && !predOk st.postponed e r.captured then .noMatch r
       else
         let r1 := r.push e st.alias
         if st.epsAccept then .completeCont r1 { captured := r1.captured, stack := r1.stack }
